@@ -8,7 +8,7 @@ use poulpy_hal::{
         VecZnxRotateAssignTmpBytes, VecZnxRshAssign, VecZnxRshTmpBytes, VecZnxSub, VecZnxSubAssign, VecZnxSubNegateAssign,
         VecZnxZero,
     },
-    layouts::{Backend, DataMut, DataRef, GaloisElement, Scratch},
+    layouts::{Backend, DataMut, DataRef, GaloisElement, Scratch, ZnxViewMut},
 };
 
 use crate::{
@@ -406,8 +406,17 @@ where
         assert_eq!(res.base2k(), a.base2k());
         assert!(res.rank() == a.rank() || a.rank() == 0);
 
-        for i in 0..(a.rank() + 1).into() {
+        let a_cols: usize = (a.rank() + 1).into();
+
+        for i in 0..a_cols {
             self.vec_znx_sub_negate_assign(res.data_mut(), i, a.data(), i);
+        }
+
+        // res = a - res: the columns `a` does not have (rank-0 operand) are zero there, so res[i] = -res[i].
+        for i in a_cols..(res.rank() + 1).into() {
+            for j in 0..res.size() {
+                res.data_mut().at_mut(i, j).iter_mut().for_each(|x| *x = x.wrapping_neg());
+            }
         }
     }
 }
